@@ -76,7 +76,9 @@ def hook_factory(plan):
             r_ = interp.deref_all(args[0])
             return ('ref', r_[3][1])
         if name in ('core::convert::Into::into', 'core::convert::From::from') and args:
-            return args[0]
+            res_ = strip_generics(t.get('resolved') or '')
+            if not (res_ and world.facts.body(res_) is not None):       # (a workspace conversion is interpreted, not skipped)
+                return args[0]
         a0 = interp.deref_all(args[0]) if args else None
         if a0 is not None and a0[0] == 'key' and name.startswith(('core::str::', 'alloc::str::', 'alloc::string::String::', '<str as ', '<alloc::string::String as ')):
             # a string operation on the request path: the same text (owned / borrowed copies) or some OTHER text
